@@ -420,14 +420,14 @@ def surface_fallback(P, rep, rule="G3.surface"):
     ok = False
     why = "the statement before the throw is not a loop over all triangles"
     if prev is not None and prev.get("k") == "CXXForRangeStmt":
-        rng = norm.render(P, prev["c"][1], nocast=True).replace(" ", "")
+        rng = norm.render(P, prev["c"][1], nocast=True, subst=norm.naming_locals(P, F)).replace(" ", "")
         if rng in ("tree.get_nodes()", "this->tree.get_nodes()", "triangles", "this->triangles"):
             ok = True
         else:
             why = "the last-resort loop ranges over %s, not over all nodes" % rng
     elif prev is not None and prev.get("k") == "ForStmt":
         okl, iv, bound = forward_loop(P, F, prev)
-        b = norm.render(P, bound, nocast=True).replace(" ", "") if bound is not None else ""
+        b = norm.render(P, bound, nocast=True, subst=norm.naming_locals(P, F)).replace(" ", "") if bound is not None else ""
         if okl and b in ("tree.get_nodes().size()", "triangles.size()"):
             ok = True
         else:
